@@ -40,8 +40,39 @@ def make_grid(spec):
         g = pp.StructuredTetrahedralGrid(np.array(spec["n"]))
     else:
         raise ValueError(kind)
+    if spec.get("axperm"):
+        # exact axis permutation of the node coordinates: the grid is embedded along other axes
+        g.nodes = g.nodes[np.array(spec["axperm"])]
     g.compute_geometry()
+    if spec.get("pmap"):
+        g.set_periodic_map(np.array(spec["pmap"], dtype=int))
     return g
+
+
+def periodic_pairs(rng, spec):
+    """Pairs of opposite boundary faces of a Cartesian/tensor grid (found on the un-permuted
+    grid), for one or more axes; optionally the orientation of an axis is flipped (its max
+    side goes to the first row of the map) and the pairs are shuffled."""
+    base = dict(spec)
+    base.pop("axperm", None)
+    g = make_grid(base)
+    fc = g.face_centers
+    axes = [a for a in range(g.dim) if rng.random() < (0.7 if g.dim > 1 else 1.0)]
+    if not axes:
+        axes = [rng.randrange(g.dim)]
+    pairs = []
+    for k, a in enumerate(axes):
+        lo, hi = fc[a].min(), fc[a].max()
+        others = [b for b in range(3) if b != a]
+        key = lambda f: tuple(fc[b, f] for b in others)
+        left = sorted(np.where(fc[a] == lo)[0], key=key)
+        right = sorted(np.where(fc[a] == hi)[0], key=key)
+        flip = k > 0 and rng.random() < 0.5
+        for l, r in zip(left, right):
+            pairs.append((int(r), int(l)) if flip else (int(l), int(r)))
+    if rng.random() < 0.5:
+        rng.shuffle(pairs)
+    return [[p[0] for p in pairs], [p[1] for p in pairs]]
 
 
 def grid_spec(rng, tier):
@@ -150,6 +181,12 @@ class C12(Prop):
         vals = [0.25, 0.5, 1.0, 2.0, 4.0, 1.5, 3.0]
         for _ in range(n):
             spec = grid_spec(rng, tier)
+            if spec["kind"] in ("cart", "tensor"):
+                d0 = len(spec["n"]) if spec["kind"] == "cart" else len(spec["x"])
+                if rng.random() < 0.3:
+                    spec["pmap"] = periodic_pairs(rng, spec)
+                if d0 < 3 and rng.random() < 0.35:
+                    spec["axperm"] = rng.choice([[1, 0, 2], [2, 0, 1], [1, 2, 0], [2, 1, 0], [0, 2, 1]])
             g = make_grid(spec)
             nc, nf = g.num_cells, g.num_faces
             r = rng.random()
@@ -158,7 +195,9 @@ class C12(Prop):
             kmode = rng.choice(["iso", "diag", "diag", "full"]) if g.dim > 1 else rng.choice(["iso", "diag"])
             k = {"kxx": pick()}
             if kmode in ("diag", "full"):
-                k["kyy"] = pick()
+                # often equal in the first axes and different in the third: isotropic for
+                # SecondOrderTensor.is_isotropic(dim) but not in an embedding plane
+                k["kyy"] = list(k["kxx"]) if rng.random() < 0.4 else pick()
                 k["kzz"] = pick()
             if kmode == "full":
                 # off-diagonals small enough for diagonal dominance (SPD)
@@ -186,10 +225,14 @@ class C12(Prop):
     def run_impl(self, case):
         g, K, bc, data = self._setup(case)
         discr = pp.Tpfa(KW)
-        discr.discretize(g, data)
+        import warnings
+        with warnings.catch_warnings():
+            warnings.simplefilter("ignore")
+            discr.discretize(g, data)
         md = data[pp.DISCRETIZATION_MATRICES][KW]
         fi, ci, sgn = sparse_array_to_row_col_data(g.cell_faces)
-        res = {"dim": int(g.dim), "nf": int(g.num_faces), "nc": int(g.num_cells),
+        pm = case["grid"].get("pmap") or [[], []]
+        res = {"pmap": [[int(l), int(r)] for l, r in zip(pm[0], pm[1])],"dim": int(g.dim), "nf": int(g.num_faces), "nc": int(g.num_cells),
                "cf": [[int(a), int(b), int(c)] for a, b, c in zip(fi, ci, sgn)],
                "flux": canon(md[discr.flux_matrix_key]),
                "bound_flux": canon(md[discr.bound_flux_matrix_key]),
@@ -247,6 +290,18 @@ class C12(Prop):
             if len(cells) == 2:
                 if not set(nzc) <= set(int(c) for c in cells) or abs(flux[f].sum()) > tol:
                     return f"interior face {f}: row {[(c, flux[f, c]) for c in nzc]} is not t*(e_c1 - e_c2)"
+        # periodic pairs: one flux value for the pair, between the two cells only
+        for l, r in res["pmap"]:
+            cl, sl = int(cfm[l].indices[0]), float(cfm[l].data[0])
+            cr, sr = int(cfm[r].indices[0]), float(cfm[r].data[0])
+            for f in (l, r):
+                nzc = [c for c in range(nc) if flux[f, c] != 0]
+                if not set(nzc) <= {cl, cr} or abs(flux[f].sum()) > tol:
+                    return f"periodic face {f}: row {[(c, flux[f, c]) for c in nzc]} is not t*(e_c1 - e_c2)"
+            if np.abs(sl * flux[l] + sr * flux[r]).max() > tol:
+                return (f"periodic pair ({l},{r}): the flux leaving cell {cl} "
+                        f"{(sl * flux[l]).tolist()} differs from the flux entering cell {cr} "
+                        f"{(-sr * flux[r]).tolist()}")
         # constant pressure
         p0 = float(case["p0"])
         bv = np.zeros(nf)
@@ -261,9 +316,14 @@ class C12(Prop):
             for j in range(nc):
                 if i != j and A[i, j] > tol:
                     return f"K-orthogonal grid: positive off-diagonal A[{i},{j}] = {A[i, j]}"
-            has_open = any((not bc.is_neu[f]) for f in g.cell_faces.tocsc()[:, i].indices)
+            selfp = {f for l, r in res["pmap"] for f in (l, r)
+                     if cfm[l].indices[0] == cfm[r].indices[0]}   # cell periodic with itself
+            has_open = any((not bc.is_neu[f]) and f not in selfp
+                           for f in g.cell_faces.tocsc()[:, i].indices)
             if (has_open and not A[i, i] > 0) or A[i, i] < 0:
                 return f"K-orthogonal grid: diagonal A[{i},{i}] = {A[i, i]} not positive"
+        if res["pmap"]:
+            return None      # MPFA comparison and linear pressures do not apply to periodic maps
         # MPFA coincidence (oracle only)
         g2, K2, bc2, data2 = self._setup(case)
         mp = pp.Mpfa(KW)
@@ -275,11 +335,10 @@ class C12(Prop):
                 and np.allclose(mbflux, bflux, rtol=1e-9, atol=1e-9 * scale)):
             return ("MPFA and TPFA differ on a K-orthogonal grid: "
                     f"flux {np.abs(mflux - flux).max():.3e}, bound_flux {np.abs(mbflux - bflux).max():.3e}")
-        if not case["const"]:
+        if not case["const"] or res["pmap"]:
             return None
         # linear exactness: p = a.x + b, flux must be -n.K a on every face
         a = np.array(case["lin"][:3], dtype=float)
-        a[g.dim:] = 0
         b0 = float(case["lin"][3])
         Kc = K.values[:, :, 0]
         p = a @ g.cell_centers + b0
@@ -310,8 +369,9 @@ class C12(Prop):
         ccs = clist(g.cell_centers.T, cvec)
         perms = clist(range(g.num_cells),
                       lambda c: "(" + ", ".join(cvec(K.values[i, :, c]) for i in range(3)) + ")")
-        return ("(mk_input {} {} {} {}%Z {} {} {} {} {} {} {} {}%Z)".format(
+        return ("(mk_input {} {} {} {}%Z {}%Z {} {} {} {} {} {} {} {}%Z)".format(
             cz(res["dim"]), cz(res["nf"]), cz(res["nc"]), clist(res["cf"], trip),
+            clist(res["pmap"], lambda lr: f"({cz(lr[0])}, {cz(lr[1])})"),
             normals, fcs, ccs, perms,
             clist(bc.is_dir, cbool), clist(bc.is_neu, cbool), clist(bc.is_internal, cbool),
             clist(res["bnd"], cz)))
@@ -319,11 +379,11 @@ class C12(Prop):
     def coq_case(self, case, res):
         ent = lambda t: f"({cz(t[0])}, {cz(t[1])}, {cq(t[2])})"
         m = lambda x: clist(x, ent)
-        return (f"agree {self._input(case, res)} {cbool(res['korth_exact'])} {m(res['flux'])} "
-                f"{m(res['bound_flux'])} {m(res['bpc'])} {m(res['bpf'])}")
+        return (f"agree {self._input(case, res)} {cbool(res['korth_exact'])} (Some ({m(res['flux'])}, "
+                f"{m(res['bound_flux'])}, {m(res['bpc'])}, {m(res['bpf'])}))")
 
     def coq_diag(self, case, res):
-        return f"qdiscretize {self._input(case, res)}"
+        return f"option_map qdiscretize {self._input(case, res)}"
 
     def nontrivial(self, case, res):
         return res["nc"] >= 2
@@ -331,7 +391,7 @@ class C12(Prop):
     def finding_key(self, case, res, why):
         if "symmetric" in why:
             return "asymmetric"
-        if "interior face" in why:
+        if "interior face" in why or "periodic" in why:
             return "not-single-valued"
         if "constant pressure" in why:
             return "constant-not-zero"
